@@ -24,7 +24,7 @@ CLAIMS = {
          "legitimate broker outside hostile windows; malformed acks are generated as targeted hostile replies", SIM),
  "C17": ("exploration", "5 C17", "Strict independent MQTT 5 decoder applied to every byte the client writes in every run; PUBLISH/SUBSCRIBE/UNSUBSCRIBE/DISCONNECT fields compared with the supplied arguments, CONNECT fields with the configuration. The input space is sampled (boundary-biased), not enumerated.",
          "reference codec written from the specification", SIM),
- "C04": ("exploration", "5 C04", "Broker model acts as QoS 0/1/2 sender with MQTT retransmission on session resumption. Wire: ack type per QoS, no stray acks, PUBCOMP only after a delivered PUBREL; the first transmission of a QoS 1/2 PUBLISH and a PUBREL whose PUBREC travelled on the same connection are acknowledged within 10 s while the connection stays up and fault-free, and - without any timing assumption - a PUBREL that was read and dispatched is answered at the latest by the third later write of that connection. Application: content equality, QoS 2 at most once always and exactly once by the end of the healed suffix, QoS 1 at least once, per-QoS order of first deliveries. Six known-finding classes (inbound exchanges interrupted by a connection loss) are reported as KNOWN-FINDING; every other class is a VIOLATION.",
+ "C04": ("exploration", "5 C04", "Broker model acts as QoS 0/1/2 sender with MQTT retransmission on session resumption. Wire: ack type per QoS, no stray acks, PUBCOMP only after a delivered PUBREL; the first transmission of a QoS 1/2 PUBLISH and a PUBREL whose PUBREC travelled on the same connection are acknowledged within 10 s while the connection stays up and fault-free, and - without any timing assumption - a PUBREL that was read and dispatched is answered at the latest by the third later write of that connection. Application: content equality, QoS 2 at most once always and exactly once by the end of the healed suffix, QoS 1 at least once, per-QoS order of first deliveries. Eight known-finding classes (K1-K5, K8, K9: inbound exchanges interrupted by a connection loss; K12: two QoS 2 exchanges finishing in the wrong order) are reported as KNOWN-FINDING; every other class is a VIOLATION.",
          "lower bounds only for messages not in flight when the broker dropped the session and only when the receive channel of the running client could be drained at the end", SIM + "; bounded liveness"),
  "C09": ("exploration", "5 C09", "async_disconnect at seeded instants: completion within 5 s of initiation (+ injected stall), every post-handshake write begun after initiation carries exactly the DISCONNECT with the given reason code/properties (properties dropped iff larger than Maximum Packet Size) and nothing follows it on that connection, no write and no connection attempt after completion until async_run.",
          "attribution of network activity to a service object is skipped while two service generations are active", SIM),
@@ -38,7 +38,7 @@ CLAIMS = {
          "boundary sizes computed with the independent reference encoder", SIM),
  "C18": ("exploration", "5 C18", "Reference-encoded broker packets (short forms, property mixes, repeated user properties, several subscription identifiers) under arbitrary chunking: CONNACK as reported by the logger and connack_properties(), async_receive results (C04), handler arguments (C01/C14), server DISCONNECT as logged, authenticator inputs equal what was encoded; a well-formed packet is never answered with DISCONNECT 0x81/0x82. The re-encode clause is a pure codec round trip and is not decided by this technique.",
          "scope: decode + surfacing through the API; not the encode-again clause", SIM),
- "C19": ("exploration", "5 C19", "Hostile broker (22 mutation kinds incl. structure-aware property mutations + random bytes, handshake and established phase, small client receive buffers) with the whole client under ASan/UBSan: no sanitizer report, abort or uncaught exception (worker death is attributed to the announced seed and replayed), no livelock at one virtual instant, a successful completion needs a well-formed acknowledgement in the byte stream as framed by the reference decoder, a message handed to async_receive is a well-formed PUBLISH of that stream (Protocol Errors that still parse are not counted as malformed), operations outstanding after the hostile window closed complete within the healed suffix, and the same burst (one transport segment, PINGRESP packets between the messages) under three read chunkings gives the same logical trace (chunking differential, 25 % of the runs).",
+ "C19": ("exploration", "5 C19", "Hostile broker (22 mutation kinds incl. structure-aware property mutations + random bytes, handshake and established phase, small client receive buffers) with the whole client under ASan/UBSan: no sanitizer report, abort or uncaught exception (worker death is attributed to the announced seed and replayed), no livelock at one virtual instant, a successful completion needs a well-formed acknowledgement in the byte stream as framed by the reference decoder, a message handed to async_receive is a well-formed PUBLISH of that stream (Protocol Errors that still parse are not counted as malformed), operations outstanding after the hostile window closed complete within the healed suffix, and the same burst (one transport segment, PINGRESP packets between the messages) under three read chunkings gives the same logical trace (chunking differential, 25 % of the runs). Four decoder/recognition leniencies are open known findings with classes of their own (K7, K10, K11, K13).",
          "malformed = cannot be parsed (incl. ill-formed UTF-8); duplicate/foreign properties and value constraints are Protocol Errors and outside the statement", SIM + "; sanitizers"),
  "C20": ("fault_enumeration", "5 C20", "Complete enumeration of 9 categories x 256 bytes through to_reason_code against tables written from MQTT 5, in a TU built with -fno-weak so the tables are ASan-guarded (out-of-table reads are reported).",
          "the sanitizer-instrumentation workaround is a complete enumeration of a finite domain, not simulation; stated as such", "complete enumeration (2304 cases) with ASan-guarded tables"),
